@@ -71,5 +71,7 @@ FIXED.append("fixed: property=C09 856b35d (@T23 + 2 hours) = @T01 was false: the
 k("C19", "edit-parse-format-parse|seed=*|parse-format-parse-changes-information|empty-authority", "an absolute reference with an empty authority (http:///Patient/1) is accepted with service base 'http:' (all trailing slashes trimmed); its formatted form http:/Patient/1 parses as a non-REST URI, so parse-format-parse changes the information. Recorded rather than repaired: rejecting it needs the service-base pattern, which is stricter than the resource-URL pattern ('_' in path segments)", {"input": "http:///Patient/1", "formatted": "http:/Patient/1"})
 FIXED.append("fixed: property=C19 82422fb LiteralInfoFromURI(\"\") and canonical.IdentityFromReference(\"\" / \"#x\" / nil) panicked with index out of range (also C01)")
 
+FIXED.append("fixed: property=C19 fc65c32 Parameters/1 was rejected and http://h/Parameters/1 parsed as a non-REST URI: the resource-URL pattern listed 145 of the 146 R4 types")
+
 if __name__ == '__main__':
     write()
